@@ -1033,23 +1033,25 @@ Proof.
   assert (Kc : forall a, TreeL a -> DInv a ->
                  DInv (if eff_cancelled a (g_scope (groups a g)) then a else scope_cancel a (g_scope (groups a g)) false)).
   { intros a Ta Ia. destruct (eff_cancelled a _); [exact Ia|now apply D_scope_cancel]. }
+  assert (Kc2 : forall a, TreeL a -> DInv a -> DInv (scope_cancel a (g_scope (groups a g)) false)).
+  { intros a Ta Ia. now apply D_scope_cancel. }
   destruct (k_done k) as [[v|e|e]|].
   - destruct (k_startfut k) as [f|]; [|exact I4].
     destruct (f_st (futs s4 f)); try exact I4. apply (DInv_dq _ _ I4), dq_fut_complete.
   - destruct (k_startfut k) as [f|].
     + destruct (f_st (futs s4 f)).
       * apply (DInv_dq _ _ I4), dq_fut_complete.
-      * destruct (is_cancel e); [now apply Kc|]. destruct (Kx e). now apply Kc.
-      * destruct (is_cancel e); [now apply Kc|]. destruct (Kx e). now apply Kc.
-      * destruct (is_cancel e); [exact I4|]. destruct (Kx e). now apply Kc.
-    + destruct (is_cancel e); [now apply Kc|]. destruct (Kx e). now apply Kc.
+      * destruct (is_cancel e); [now apply Kc|]. destruct (Kx e). now apply Kc2.
+      * destruct (is_cancel e); [now apply Kc|]. destruct (Kx e). now apply Kc2.
+      * destruct (is_cancel e); [exact I4|]. destruct (Kx e). now apply Kc2.
+    + destruct (is_cancel e); [now apply Kc|]. destruct (Kx e). now apply Kc2.
   - destruct (k_startfut k) as [f|].
     + destruct (f_st (futs s4 f)).
       * apply (DInv_dq _ _ I4), dq_fut_complete.
-      * destruct (is_cancel e); [now apply Kc|]. destruct (Kx e). now apply Kc.
-      * destruct (is_cancel e); [now apply Kc|]. destruct (Kx e). now apply Kc.
-      * destruct (is_cancel e); [exact I4|]. destruct (Kx e). now apply Kc.
-    + destruct (is_cancel e); [now apply Kc|]. destruct (Kx e). now apply Kc.
+      * destruct (is_cancel e); [now apply Kc|]. destruct (Kx e). now apply Kc2.
+      * destruct (is_cancel e); [now apply Kc|]. destruct (Kx e). now apply Kc2.
+      * destruct (is_cancel e); [exact I4|]. destruct (Kx e). now apply Kc2.
+    + destruct (is_cancel e); [now apply Kc|]. destruct (Kx e). now apply Kc2.
   - destruct (k_startfut k) as [f|]; [|exact I4].
     destruct (f_st (futs s4 f)); try exact I4. apply (DInv_dq _ _ I4), dq_fut_complete.
 Qed.
